@@ -188,7 +188,7 @@ def _gen_value(rnd, ty: str) -> str:
 
 
 COLTYPES = ["INT", "BIGINT", "SMALLINT", "NUMBER(38,0)", "NUMBER(10,0)", "NUMBER(5,0)", "NUMBER(1,0)", "NUMBER(10,2)", "NUMBER(38,10)",
-            "NUMBER(38,37)", "DECIMAL(18,6)", "FLOAT", "VARCHAR", "VARCHAR(20)", "STRING", "BOOLEAN", "DATE", "TIME",
+            "NUMBER(38,37)", "DECIMAL(18,6)", "NUMBER(20,15)", "NUMBER(12,12)", "NUMBER(30,29)", "FLOAT", "VARCHAR", "VARCHAR(20)", "STRING", "BOOLEAN", "DATE", "TIME",
             "TIMESTAMP_NTZ", "TIMESTAMP_TZ", "BINARY", "VARIANT", "OBJECT", "ARRAY"]
 NO_VALUES_LIST = {"BINARY", "VARIANT", "OBJECT", "ARRAY"}     # expressions: use INSERT ... SELECT
 
@@ -221,6 +221,17 @@ def _gen_history(rnd, hid: int, force_types=None) -> list[tuple[str, str]]:
     mid.append(("select", f"select {', '.join(sub)} from {t} where id = {k}"))
     mid.append(("select-empty", f"select * from {t} where id > 1000"))
     mid.append(("select-alias", f"select id as \"a b\", {sub[0]} as X, {sub[0]} as x from {t} order by id"))
+    # result shapes with REPEATED column names and different contents (same and different types, timestamps, NULLs)
+    c0, c1 = cols[0], cols[-1]
+    mid.append(("select-dupnames", f"select id as a, {c0} as a, {c1} as A, id + 1 as \"a\", {c0} as \"a\" from {t} order by id"))
+    mid.append(("select-dupnames-lit", "select 1 as a, 2 as a, 'x' as a, null as a, 2.5::float as a, 1.25::number(10,2) as a"))
+    mid.append(("select-selfjoin", f"select * from {t} t1 join {t} t2 on t1.id = t2.id + 1 order by t1.id"))
+    mid.append(("select-selfjoin", f"select t1.{c1}, t2.{c1}, t2.id, t1.id from {t} t1 left join {t} t2 on t1.id = t2.id - 1 order by t1.id"))
+    mid.append(("select-dupnames-ts", f"select '{_ts_lit(rnd)}'::timestamp_ntz as ts, null::timestamp_ntz as ts, '{_ts_lit(rnd)}'::timestamp_ntz as ts, "
+                                     f"'2020-01-01 00:00:00.{rnd.choice(INEXACT):06d}+00:00'::timestamp_tz as tz, null::timestamp_tz as tz, "
+                                     f"'12:00:00.{rnd.choice(INEXACT):06d}'::time as tm, null::time as tm"))
+    # a row-less result that cannot be described (LIST column): known finding, does not end the history
+    mid.append(("select-list-empty", f"select [1, 2] as l from {t} where id > 1000"))
     mid.append(("select-agg", f"select count(*), min(id), max(id) from {t} where id <= {k}"))
     mid.append(("select-null", f"select null, null::timestamp_ntz, null::timestamp_tz, null::number(10,2), null::time, null::binary, {sub[0]} from {t} order by id"))
     ci = rnd.randrange(len(cols))
@@ -250,7 +261,7 @@ def _gen_history(rnd, hid: int, force_types=None) -> list[tuple[str, str]]:
     mid.append(("select-ts", f"select '{_ts_lit(rnd)}'::timestamp_ntz, '{_ts_lit(rnd)}+00:00'::timestamp_tz, '23:59:59.{rnd.choice(INEXACT):06d}'::time"))
     mid.append(("select-lit", "select 1, 1.5, 'a', true, 1::number(10,0), 1.5::number(10,1), 2.5::float, to_date('2020-01-01')"))
     rnd.shuffle(mid)
-    st += mid[: rnd.randint(8, 18)]
+    st += mid[: rnd.randint(10, 22)]
     st.append(("select", f"select * from DB1.S1.{t} order by id"))
     if rnd.random() < 0.35:
         kind, sql = rnd.choice(ENDERS)
